@@ -21,6 +21,7 @@ from ..core import (
     norm,
     parent,
     qualname,
+    resolve_local,
     src,
 )
 from ..report import Context
@@ -335,10 +336,26 @@ def r4_depth_and_dependency(ctx: Context) -> None:
     ok = False
     if sums and isinstance(sums[0].args[0], ast.GeneratorExp):
         ge = sums[0].args[0]
-        it = ge.generators[0].iter
-        if isinstance(it, ast.Call) and call_name(it) == "get_longest_path" and it.args and isinstance(it.args[0], ast.Lambda):
-            lam = it.args[0]
-            ok = _same_modulo_var(ge.elt, norm(ge.generators[0].target), lam.body, lam.args.args[0].arg)
+        it = resolve_local(cp, ge.generators[0].iter)  # the path may be held in a local first
+        w = None
+        if isinstance(it, ast.Call) and call_name(it) == "get_longest_path":
+            w = next((k.value for k in it.keywords if k.arg == "weights"), it.args[0] if it.args else None)
+        var = norm(ge.generators[0].target)
+        if isinstance(w, ast.Lambda):
+            ok = _same_modulo_var(ge.elt, var, w.body, w.args.args[0].arg)
+        elif isinstance(w, (ast.Name, ast.Attribute)):
+            # a named weight function (defined inside the method, or a method of the class)
+            wname = w.id if isinstance(w, ast.Name) else w.attr
+            defs = [d for d in ast.walk(cp) if isinstance(d, ast.FunctionDef) and d is not cp and d.name == wname] or \
+                   ([methods(tg)[wname]] if wname in methods(tg) else [])
+            if defs:
+                d = defs[0]
+                params = [a.arg for a in d.args.args if a.arg not in ("self", "cls")]
+                rets = [r.value for r in ast.walk(d) if isinstance(r, ast.Return) and r.value is not None]
+                if isinstance(ge.elt, ast.Call) and norm(ge.elt.func).split(".")[-1] == wname and len(ge.elt.args) == 1 and norm(ge.elt.args[0]) == var:
+                    ok = True  # the very same function is applied to every node of the path
+                elif len(rets) == 1 and len(params) == 1:
+                    ok = _same_modulo_var(ge.elt, var, rets[0], params[0])
     ctx.check(ok, "C17.R4", "TaskGraph.critical_path_runtime|sums the attribute its weight function returns", loc(cp), "same expression",
               "the critical path is chosen with one weight but summed with another")
     # add_child symmetry
